@@ -265,9 +265,12 @@ def run_case(case):
                           'dense band shape %s vs %s' % (tuple(t.shape), e.shape))
         if t.dtype != tdt:
             return r.fail('dtype', 'output dtype %s for input %s' % (t.dtype, tdt))
-    tol2 = (64 * core.EPS32 if f32 else 1e-9) * max(g * core.maxabs(x), 1e-300)
+    # g comes from the extracted columns: with a column subset it can underestimate the operator norm, so the scale is
+    # never smaller than the largest reference coefficient itself (thorough run, seed 3: 10 eps32 of a 2.6e5 lowpass)
+    scale2 = max(g * core.maxabs(x), core.maxabs(y_ref), 1e-300)
+    tol2 = (64 * core.EPS32 if f32 else 1e-9) * scale2
     okc, err = core.close(y_impl, y_ref, tol2)
-    r.metric('dense_rel_err', err / max(g * core.maxabs(x), 1e-300))
+    r.metric('dense_rel_err', err / scale2)
     if not okc:
         values_mismatch('dense', 'dense input differs from PyWavelets: ' +
                         core.first_mismatch(y_impl, y_ref, tol2))
@@ -277,7 +280,7 @@ def run_case(case):
     if not ok:
         return r.fail(out3.bucket, 'forward raised when the input requires grad: %s' % out3)
     y_rec = _flat(*out3)
-    if y_rec.shape != y_impl.shape or not core.close(y_rec, y_impl, (4 * core.EPS32 if f32 else 1e-13) * max(g * core.maxabs(x), 1e-300))[0]:
+    if y_rec.shape != y_impl.shape or not core.close(y_rec, y_impl, (4 * core.EPS32 if f32 else 1e-13) * scale2)[0]:
         r.fail('depends_on_autograd_recording:dim%d' % dim, 'coefficients differ between a plain call and a call whose input requires grad')
     return r
 
